@@ -155,15 +155,28 @@ def routes_agree(which):
         check('focus-real-Q-is-dft-on-padded-grid', bool(np.allclose(out3, ref3, atol=1e-9)))
     else:
         dx, efl, wvl, odx = float(rng.uniform(0.1, 2)), float(rng.uniform(10, 200)), float(rng.uniform(0.4, 1.0)), float(rng.uniform(0.5, 5))
-        shift = (0, 0) if rng.random() < 0.5 else (float(rng.uniform(-3, 3)), float(rng.uniform(-3, 3)))
+        # shifts in output units: none, both axes, one axis only
+        sx_, sy_ = float(rng.uniform(-3, 3)) * odx, float(rng.uniform(-3, 3)) * odx
+        shift = [(0, 0), (sx_, sy_), (sx_, 0), (0, sy_)][int(rng.integers(0, 4))]
         a = pr.focus_fixed_sampling(f, dx, efl, wvl, odx, (M, N), shift=shift, method='mdft')
         b = pr.focus_fixed_sampling(f, dx, efl, wvl, odx, (M, N), shift=shift, method='czt')
         check('focus-methods-modulus', bool(np.allclose(abs(a), abs(b), atol=1e-8)))
         if shift == (0, 0):
             check('focus-methods-exact', bool(np.allclose(a, b, atol=1e-8)))
-        a = pr.unfocus_fixed_sampling(f, odx, efl, wvl, dx, (M, N), shift=shift, method='mdft')
-        b = pr.unfocus_fixed_sampling(f, odx, efl, wvl, dx, (M, N), shift=shift, method='czt')
+        # and both are the textbook transform at Q_axis = lambda f / (N_axis dx odx), shift in output samples
+        ref = _ref_dft(np, f, (wvl * efl / (m * dx * odx), wvl * efl / (n * dx * odx)), (M, N), (shift[0] / odx, shift[1] / odx), -1)
+        check('focus-is-the-textbook-transform-modulus', bool(np.allclose(abs(a), abs(ref), atol=1e-8)))
+        ushift = (shift[0] / odx * dx, shift[1] / odx * dx)         # unfocus takes its shift in ITS output units (dx)
+        a = pr.unfocus_fixed_sampling(f, odx, efl, wvl, dx, (M, N), shift=ushift, method='mdft')
+        b = pr.unfocus_fixed_sampling(f, odx, efl, wvl, dx, (M, N), shift=ushift, method='czt')
         check('unfocus-methods-modulus', bool(np.allclose(abs(a), abs(b), atol=1e-8)))
+        ref = _ref_dft(np, f, (wvl * efl / (m * dx * odx), wvl * efl / (n * dx * odx)), (M, N), (ushift[0] / dx, ushift[1] / dx), 1)
+        check('unfocus-is-the-textbook-transform-modulus', bool(np.allclose(abs(a), abs(ref), atol=1e-8)))
+        if M == N and rng.random() < 0.5:
+            c = pr.unfocus_fixed_sampling(f, odx, efl, wvl, dx, M, shift=ushift, method='mdft')      # scalar size convention
+            check('scalar-output-size-equals-tuple', bool(np.allclose(c, a, atol=1e-10)))
+            c = pr.focus_fixed_sampling(f, dx, efl, wvl, odx, M, shift=shift, method='mdft')
+            check('scalar-output-size-equals-tuple(focus)', bool(np.allclose(abs(c), abs(pr.focus_fixed_sampling(f, dx, efl, wvl, odx, (M, N), shift=shift, method='mdft')), atol=1e-10)))
 
 
 @harness('C01', 'bounded/history-independence', kind='bounded',
